@@ -278,7 +278,13 @@ func RunEntry(l *driver.Loaded, b *Builder, entryKey string, opt RunOpts) (*Entr
 		entryKey0 := entryKey
 		entryKey := entryKey + "[" + PathTag(p) + "]"
 		if p.Unsupported != nil {
-			return nil, fmt.Errorf("%s leaves the analysable subset: %s (%s) on path %s", entryKey, p.Unsupported.Msg, l.Fset.Position(p.Unsupported.Pos), p.Name())
+			// the generator code on this path uses something the symbolic evaluator does not
+			// model: the analysis that exists for the pinned tree cannot be redone for this
+			// code. Reported as a failed obligation (it passes on the unchanged tree), not as an
+			// engine error.
+			rep.Results = append(rep.Results, gres(entryKey, "contract-applies", "", id, false,
+				fmt.Sprintf("the generator code leaves the analysable subset: %s (%s) on path %s", p.Unsupported.Msg, l.Fset.Position(p.Unsupported.Pos), p.Name())))
+			continue
 		}
 		if ok, _ := p.Consistent(); !ok {
 			rep.Infeasible++
